@@ -168,9 +168,10 @@ class Cutter(ast.NodeTransformer):
     """mechanical rewrite; `cuts` maps loop ordinal -> LoopSpec, `comps` maps
     comprehension ordinal -> schema callable"""
 
-    def __init__(self, cuts, comps):
+    def __init__(self, cuts, comps, strlit=False):
         self.cuts = cuts
         self.comps = comps
+        self.strlit = strlit
         self.loop_no = -1
         self.comp_no = -1
         self.rewritten = []
@@ -304,6 +305,22 @@ class Cutter(ast.NodeTransformer):
                 ast.copy_location(c, node)
         return new
 
+    def visit_Call(self, node):
+        """'<literal>'.method(args)  ->  __strlit__('<literal>', 'method', args): a method of a string literal cannot
+        be intercepted otherwise; the helper calls the real method unless an argument is a proxy"""
+        self.generic_visit(node)
+        f = node.func
+        if self.strlit and isinstance(f, ast.Attribute) and isinstance(f.value, ast.Constant) and type(f.value.value) is str \
+                and not node.keywords:
+            self.rewritten.append('%d:%d strlit.%s' % (node.lineno, node.col_offset, f.attr))
+            new = ast.Call(ast.Name('__strlit__', ast.Load()), [f.value, ast.Constant(f.attr)] + node.args, [])
+            ast.copy_location(new, node)
+            for c in ast.walk(new):
+                if not hasattr(c, 'lineno'):
+                    ast.copy_location(c, node)
+            return new
+        return node
+
     def visit_ListComp(self, node):
         return self._comp(node, 'list')
 
@@ -374,7 +391,8 @@ def raw_function(obj):
     return obj
 
 
-def load(modname, qualname, stubs=None, cuts=None, comps=None, comp_handler=None, builtins_extra=None, raw=True):
+def load(modname, qualname, stubs=None, cuts=None, comps=None, comp_handler=None, builtins_extra=None, raw=True, strlit=False,
+         comps_optional=False):
     """returns a function object executing the code of modname.qualname from the
     working tree, in a namespace copy with `stubs` injected"""
     m, fn, src, tree = module_source(modname)
@@ -393,19 +411,19 @@ def load(modname, qualname, stubs=None, cuts=None, comps=None, comp_handler=None
     for p in qualname.split('.'):
         obj = inspect.getattr_static(obj, p)
     f = raw_function(obj) if raw else obj
-    if not cuts and not comps:
+    if not cuts and not comps and not strlit:
         if not isinstance(f, types.FunctionType):
             raise EngineEscape('%s is not a plain function' % qualname)
         return types.FunctionType(f.__code__, g, f.__name__, f.__defaults__, f.__closure__)
     import copy
     fnode = copy.deepcopy(node)
     fnode.decorator_list = []
-    cutter = Cutter(cuts or {}, comps or {})
+    cutter = Cutter(cuts or {}, comps or {}, strlit)
     fnode.body = [x for s in fnode.body for x in (lambda r: r if isinstance(r, list) else [r])(cutter.visit(s))]
     for k in (cuts or {}):
         if not any(('#%d' % k) in r and ('for' in r or 'while' in r) for r in cutter.rewritten):
             raise EngineEscape('%s: no loop with ordinal %d to cut (the code changed shape)' % (qualname, k))
-    for k in (comps or {}):
+    for k in ({} if comps_optional else (comps or {})):
         if not any(r.endswith('#%d' % k) and 'for' not in r.split()[1] and 'while' not in r.split()[1] for r in cutter.rewritten):
             raise EngineEscape('%s: no comprehension with ordinal %d to cut' % (qualname, k))
     if run is not None:
@@ -423,7 +441,25 @@ def load(modname, qualname, stubs=None, cuts=None, comps=None, comp_handler=None
     def __flatten_target(x):
         return x
 
-    g.update(__cut__=__cut__, __comp__=__comp__, __LoopBreak=LoopBreak, __LoopContinue=LoopContinue,
+    def __strlit__(lit, meth, *args):
+        from . import strings
+        flat = []
+        for a in args:
+            flat.extend(a if isinstance(a, (list, tuple)) else [a])
+        if not any(isinstance(a, P.Proxy) for a in flat):
+            return getattr(lit, meth)(*args)
+        if meth == 'join':
+            parts = []
+            for i, a in enumerate(list(args[0])):
+                if i:
+                    parts.append(lit)
+                parts.append(a)
+            return strings.concat(parts)
+        if meth == 'format':
+            return strings.Formatted(lit, args)
+        raise EngineEscape('str literal method %s on proxies' % meth)
+
+    g.update(__strlit__=__strlit__, __cut__=__cut__, __comp__=__comp__, __LoopBreak=LoopBreak, __LoopContinue=LoopContinue,
              __flatten_target=__flatten_target)
     ns = {}
     exec(code, g, ns)
